@@ -880,8 +880,10 @@ ComponentPtr flattenComponent(const ComponentEntityPtr &parent, ComponentPtr &co
         // Take a copy of the imported component which will be used to replace the import defined in this model.
         auto importedComponentCopy = importedComponent->clone();
         importedComponentCopy->setName(component->name());
-        for (size_t i = 0; i < component->componentCount(); ++i) {
-            importedComponentCopy->addComponent(component->component(i));
+        // Note: adding a component to another one removes it from its current
+        //       parent, so we always take the first one that is left.
+        while (component->componentCount() > 0) {
+            importedComponentCopy->addComponent(component->component(0));
         }
 
         // Get list of required units from component's variables and math cn elements.
